@@ -102,10 +102,10 @@ Qed.
 Lemma find_isA l a : find isA l = Some a -> isA a = true /\ In a l.
 Proof. intros H. apply find_some in H. tauto. Qed.
 
-Lemma loop_win_isA : forall fuel j fs sch x w,
-  r_win X (loop fuel j fs sch x) = Some w -> isA w = true.
+Lemma loop_win_isA : forall fuel j fs rel sch x w,
+  r_win X (loop fuel j fs rel sch x) = Some w -> isA w = true.
 Proof.
-  induction fuel as [|fuel IH]; intros j fs sch x w H; simpl in H; [discriminate|].
+  induction fuel as [|fuel IH]; intros j fs rel sch x w H; simpl in H; [discriminate|].
   set (blocked := (N <=? length fs) && negb (existsb fdone fs) && negb (Nat.eqb (length fs) 0)) in *.
   set (fs1 := if blocked then force (Nat.modulo (shd sch) (length fs)) fs else fs) in *.
   set (sch1 := if blocked then tl sch else sch) in *.
@@ -206,7 +206,9 @@ Proof.
 Qed.
 
 (* ---------- the contract and the first ACCEPT-class candidate ---------- *)
-Definition contract := forall i j, i < j -> j < m -> mayQ i = true -> isA j = false.
+(* no candidate that may quit the round precedes the first ACCEPT-class candidate *)
+Definition contract := forall i j, i < j -> j < m -> mayQ i = true -> isA j = true ->
+  exists a, a < i /\ isA a = true.
 
 Definition FirstA (o:option nat) : Prop :=
   match o with
@@ -278,16 +280,17 @@ Proof.
       assert (In t r) by (rewrite Er; apply in_or_app; right; simpl; auto).
       specialize (NA _ H). congruence. }
     assert (MQ : mayQ t = true) by (destruct Kt as [Kt|Kt]; [congruence|auto]).
-    intros i Hi.
-    destruct (lt_eq_lt_dec i t) as [[h|h]|h].
-    + destruct (in_dec Nat.eq_dec i fs) as [Hin|Hn].
-      * assert (Gp : In i pre) by (apply InPre; auto).
+    assert (Below : forall i, i < t -> isA i = false).
+    { intros i h. destruct (in_dec Nat.eq_dec i fs) as [Hin|Hn].
+      - assert (Gp : In i pre) by (apply InPre; auto).
         destruct (in_dec Nat.eq_dec i rpre) as [Gr|Gn].
-        -- apply NA. subst r; apply in_or_app; auto.
-        -- apply Dp; auto.
-      * apply D; auto. lia.
-    + subst i. auto.
-    + apply (HC t i); auto.
+        + apply NA. subst r; apply in_or_app; auto.
+        + apply Dp; auto.
+      - apply D; auto. lia. }
+    intros i Hi.
+    destruct (lt_eq_lt_dec i t) as [[h|h]|h]; [apply Below; auto|subst i; auto|].
+    destruct (isA i) eqn:Ai; auto. exfalso.
+    destruct (HC t i h Hi MQ Ai) as (a & La & Aa). rewrite (Below a La) in Aa. discriminate.
 Qed.
 
 Hypothesis noRaise : forall x i, fst (chk x i) <> RAISE.
@@ -311,12 +314,12 @@ Proof.
   destruct o; eauto. congruence.
 Qed.
 
-Lemma loop_FirstA : contract -> forall fuel j fs sch x,
+Lemma loop_FirstA : contract -> forall fuel j fs rel sch x,
   Inv (ids fs) j -> j < m -> m - j <= fuel ->
-  let r := loop fuel j fs sch x in
+  let r := loop fuel j fs rel sch x in
   FirstA (r_win X r) /\ r_raised X r = false /\ r_fuel X r = true.
 Proof.
-  intros HC. induction fuel as [|fuel IH]; intros j fs sch x HI Hj Hf; [lia|].
+  intros HC. induction fuel as [|fuel IH]; intros j fs rel sch x HI Hj Hf; [lia|].
   simpl.
   set (blocked := (N <=? length fs) && negb (existsb fdone fs) && negb (Nat.eqb (length fs) 0)).
   set (fs1 := if blocked then force (Nat.modulo (shd sch) (length fs)) fs else fs).
@@ -376,7 +379,8 @@ Proof.
     + assert (NA : isA j = false).
       { destruct (isA j); auto. destruct CA as [_ CA]. specialize (CA eq_refl). discriminate. }
       intros i Hi. destruct (lt_eq_lt_dec i j) as [[h|h]|h]; [apply Hlo; auto|subst; auto|].
-      apply (HC j i); auto.
+      destruct (isA i) eqn:Ai; auto. exfalso.
+      destruct (HC j i h Hi (CQ eq_refl) Ai) as (a & La & Aa). rewrite (Hlo a La) in Aa. discriminate.
     + congruence.
 Qed.
 
@@ -387,7 +391,7 @@ Theorem round_eq_seq sch x : 0 < m -> contract ->
   FirstA (r_win X (round sch x)) /\ r_raised X (round sch x) = false /\ r_fuel X (round sch x) = true.
 Proof.
   intros L HC. unfold round, seq_round.
-  destruct (loop_FirstA HC m 0 [] sch x) as (F & R & U); auto; [|lia|].
+  destruct (loop_FirstA HC m 0 [] [] sch x) as (F & R & U); auto; [|lia|].
   - unfold Inv; simpl. split; [constructor|]. split; [tauto|]. intros; lia.
   - split; [|auto]. eapply FirstA_unique; eauto. apply seq_FirstA; auto; [intros; lia|lia].
 Qed.
